@@ -65,6 +65,11 @@ def get(i):
         rows = sp.build_rows(list(heads), lay)
         # barline and null rows so that "all-null lines dropped" has something to bite on
         rows.insert(2, ['=1'] * len(rows[1]))
+        # local-comment rows (one comment cell per live column) below the barline and in front of the terminators: comment cells
+        # belong to their column's spine like any other cell
+        rows.insert(3, ['!lc%d' % j for j in range(len(rows[2]))])
+        if rows[-1] and all(c == '*-' for c in rows[-1]):
+            rows.insert(len(rows) - 1, ['!end%d' % j for j in range(len(rows[-1]))])
         text = sp.to_text(rows)
         model = sp.analyse(rows)
         doc, errs = kp.loads(text)
